@@ -4,6 +4,7 @@
    checks/C10.py builds this module on every run; with a test removed from marsh.c `sites_ok` is false, the driver names
    the site and the model itself (run on truncations of the base images) produces the input that is over-read. -/
 import JanetModel.Unmarsh.BytesSound
+import JanetModel.Unmarsh.BytesMono
 import JanetModel.Unmarsh.BytesCfg
 import JanetModel.Unmarsh.PegSize
 namespace JanetModel.Unmarsh.BytesObligations
@@ -29,6 +30,12 @@ theorem unmarshal_total_inbounds (b : Array Nat) (fuel : Nat) :
 /-- `fuelBound cfg` (= 2054) levels of recursion suffice for every input: the model never answers `fuel` -/
 theorem unmarshal_terminates (b : Array Nat) (fuel : Nat) (hf : fuelBound cfg ≤ fuel) :
     ∀ a, unmarshal cfg b fuel ≠ .fuel ∧ unmarshal cfg b fuel ≠ .oob a := unmarshal_terminates_generic cfg sites_ok refs_checked depths_ok b fuel hf
+
+/-- no byte string makes the unmarshaller of the current source nest deeper than `fuelBound cfg` activations: more fuel
+    never changes the model's answer -/
+theorem unmarshal_depth_bounded (b : Array Nat) (fuel : Nat) (hf : fuelBound cfg ≤ fuel) :
+    unmarshal cfg b fuel = unmarshal cfg b (fuelBound cfg) :=
+  unmarshal_depth_bounded_generic cfg sites_ok refs_checked depths_ok b fuel hf
 
 /-- the count check of `peg_unmarshal` is present in the current peg.c (hypothesis of `PegSize.peg_alloc_covers_writes`:
     both counts ≤ INT32_MAX before the size computation) -/
